@@ -508,14 +508,17 @@ def C07(c):
             "unbounded memory by definition and are checked for panics only (Rust-vs-Rust, no model)",
             "locality / forgetting theorems reduce every history length to a bounded suffix for the specs; that the floating-point "
             "accumulators stay within the allowance a = 1024*eps*(t+n)*scale at late positions is measured on the generated streams "
-            "(quick: 12 000 steps per instance, thorough: 2 000 000), not proved; the double-accumulator averages (WMA, LinReg, SWMA) "
+            "(quick: 70 000 steps per instance, thorough: 2 000 000), not proved; the double-accumulator averages (WMA, LinReg, SWMA) "
             "grow like t^1.4 and would cross the linear bound somewhere beyond 1e7-1e8 steps (DESIGN §3.2)",
         ],
-        rule="34 method types x lengths {2,5,14,100} (thorough {1,2,3,5,14,50,127,254}): one instance runs 12 000 (2 000 000) steps "
-             "through volatile / exactly flat / volatile / 1e6 / 1e-3 / plateau regimes; at ~75 late positions (around 255, 256, 510, "
-             "512, 65535, 65536, the middle, the end, random) the output is compared with a fresh exact model primed with the last "
+        rule="34 method types x lengths {2,5,14,100} (thorough {1,2,3,5,14,50,127,254}): one instance runs 70 000 (2 000 000) steps "
+             "through volatile / exactly flat / log-normal burst -> flat episodes / 1e6 / 1e-3 / small-integer regimes; at ~180 late positions "
+             "(around 255, 256, 510, 512, 65535, 65536, the middle, the end, random, the steps at which the window has just gone flat in up to "
+             "40 episodes, 16 positions inside the small-integer regime) the output is compared with a fresh exact model primed with the last "
              "window (selections, indices, signals exactly; arithmetic within the allowance at k=t+n); recursive methods: one exact "
-             "model step from the serialized state at each of those positions")
+             "model step from the serialized state at each of those positions; indicators: 20 000 (1 000 000) candles without a panic, late positions "
+             "against a fresh instance, the exact power-of-two scale law at every step, long-window configurations on 1040-candle streams "
+             "against the exact model")
 
 
 # ---------------------------------------------------------------------------------------------
